@@ -2,11 +2,305 @@
 use crate::lab::*;
 use crate::util::*;
 use frost_core as fc;
-use frost_core::Ciphersuite;
+use frost_core::keys::{CoefficientCommitment, IdentifierList, KeyPackage, SecretShare, SigningShare, VerifiableSecretSharingCommitment};
+use frost_core::{Ciphersuite, Error, Identifier};
 
-pub fn cases(_thorough: bool, _seed: u64) -> Vec<Params> {
-    vec![]
+// variants
+const V_HONEST: u32 = 0; // consistency of the honest output (aux bit0: generate_with_dealer)
+const V_SHARE: u32 = 1; // share value + delta
+const V_COEFF: u32 = 2; // commitment entry aux + Delta
+const V_IDENT: u32 = 3; // identifier replaced by that of participant aux
+const V_TRUNC: u32 = 4; // commitment truncated by one
+const V_EXTEND: u32 = 5; // commitment extended by one adversarial entry
+const V_PARAMS: u32 = 6; // parameter / identifier-list refusals (aux: grid index)
+
+pub const GRID: [u16; 5] = [0, 1, 2, 65534, 65535];
+
+pub fn cases(thorough: bool, seed: u64) -> Vec<Params> {
+    let mut out = vec![];
+    for (n, t) in crate::nt_pairs(thorough) {
+        for ids in crate::id_sets(n, thorough, seed) {
+            let mk = |variant: u32, aux: u64, subset: Vec<usize>| Params { n, t, ids: ids.clone(), subset, variant, aux, seed };
+            out.push(mk(V_HONEST, 0, vec![]));
+            if ids == IdSet::Default {
+                out.push(mk(V_HONEST, 1, vec![]));
+            }
+            // tampering: every participant for the default set, first and last otherwise
+            let victims: Vec<usize> = if ids == IdSet::Default || n <= 3 { (0..n as usize).collect() } else { vec![0, n as usize - 1] };
+            for v in victims {
+                out.push(mk(V_SHARE, 0, vec![v]));
+                for k in 0..t as u64 {
+                    out.push(mk(V_COEFF, k, vec![v]));
+                }
+                for other in 0..n as u64 {
+                    if other as usize != v {
+                        out.push(mk(V_IDENT, other, vec![v]));
+                    }
+                }
+                out.push(mk(V_TRUNC, 0, vec![v]));
+                out.push(mk(V_EXTEND, 0, vec![v]));
+            }
+        }
+    }
+    // parameter grid and identifier-list refusals (independent of the sweep)
+    for i in 0..(GRID.len() * GRID.len()) as u64 {
+        out.push(Params { n: 0, t: 0, ids: IdSet::Default, subset: vec![], variant: V_PARAMS, aux: i, seed });
+    }
+    for k in 0..4u64 {
+        out.push(Params { n: 3, t: 2, ids: IdSet::Default, subset: vec![], variant: V_PARAMS, aux: 100 + k, seed });
+    }
+    if thorough {
+        out.push(Params { n: 65535, t: 2, ids: IdSet::Default, subset: vec![], variant: V_PARAMS, aux: 200, seed });
+    }
+    out
 }
-pub fn run<C: Ciphersuite, L: Lab<C>>(_lab: &mut L, _p: &Params) {
-    let _ = fc::CheaterDetection::Disabled;
+
+fn expected_param_error(n: u16, t: u16) -> Option<&'static str> {
+    if t < 2 {
+        Some("InvalidMinSigners")
+    } else if n < 2 {
+        Some("InvalidMaxSigners")
+    } else if t > n {
+        Some("InvalidMinSigners")
+    } else {
+        None
+    }
+}
+pub fn err_name<C: Ciphersuite>(e: &Error<C>) -> String {
+    let s = format!("{e:?}");
+    s.split(|c: char| !c.is_alphanumeric()).next().unwrap_or("").to_string()
+}
+
+fn params_case<C: Ciphersuite, L: Lab<C>>(lab: &mut L, p: &Params) {
+    lab.enter("parameters");
+    let sk = lab.nz_scalar("sk");
+    let key = fc::SigningKey::<C>::from_scalar(sk).unwrap();
+    if p.aux < 100 {
+        let n = GRID[(p.aux as usize) / GRID.len()];
+        let t = GRID[(p.aux as usize) % GRID.len()];
+        let want = expected_param_error(n, t);
+        if want.is_none() && n > 100 {
+            lab.leave();
+            return; // valid but huge: covered by aux 200 in the thorough tier
+        }
+        let before = lab.rng_requests().len();
+        let r = fc::keys::split(&key, n, t, IdentifierList::Default, lab.rng());
+        match (want, &r) {
+            (Some(w), Err(e)) => {
+                lab.check(err_name(e) == w, &format!("split({n},{t}) refuses with {w}"));
+                lab.check(lab.rng_requests().len() == before, "refusal happens before any randomness is drawn");
+            }
+            (Some(w), Ok(_)) => {
+                lab.check(false, &format!("split({n},{t}) must refuse with {w}"));
+            }
+            (None, Ok((sh, _))) => {
+                lab.check(sh.len() == n as usize, "valid boundary parameters yield n shares");
+            }
+            (None, Err(e)) => {
+                lab.check(false, &format!("split({n},{t}) must succeed, got {}", err_name(e)));
+            }
+        }
+        let before = lab.rng_requests().len();
+        let r2 = fc::keys::generate_with_dealer::<C, _>(n, t, IdentifierList::Default, lab.rng());
+        match (want, &r2) {
+            (Some(w), Err(e)) => {
+                lab.check(err_name(e) == w, &format!("generate_with_dealer({n},{t}) refuses with {w}"));
+            }
+            (Some(w), Ok(_)) => {
+                lab.check(false, &format!("generate_with_dealer({n},{t}) must refuse with {w}"));
+            }
+            (None, r) => {
+                lab.check(r.is_ok(), "generate_with_dealer succeeds on valid boundary parameters");
+            }
+        }
+        let _ = before;
+    } else if p.aux == 200 {
+        let r = fc::keys::split(&key, 65535, 2, IdentifierList::Default, lab.rng());
+        if lab.check(r.is_ok(), "split(65535, 2) succeeds") {
+            let (sh, pk) = r.unwrap();
+            lab.check(sh.len() == 65535 && pk.verifying_shares().len() == 65535, "65535 shares and verifying shares");
+            let last = Identifier::<C>::try_from(65535).unwrap();
+            let kp = KeyPackage::try_from(sh[&last].clone());
+            lab.check(kp.is_ok(), "the share of participant 65535 verifies");
+        }
+    } else {
+        let id = |i: u16| Identifier::<C>::try_from(i).unwrap();
+        let (list, want): (Vec<Identifier<C>>, &str) = match p.aux - 100 {
+            0 => (vec![id(1), id(2)], "IncorrectNumberOfIdentifiers"),
+            1 => (vec![id(1), id(2), id(3), id(4)], "IncorrectNumberOfIdentifiers"),
+            2 => (vec![id(1), id(2), id(2)], "DuplicatedIdentifier"),
+            _ => (vec![id(7), id(9), id(7)], "DuplicatedIdentifier"),
+        };
+        let r = fc::keys::split(&key, 3, 2, IdentifierList::Custom(&list), lab.rng());
+        match r {
+            Err(e) => {
+                lab.check(err_name(&e) == want, &format!("identifier list refused with {want}"));
+            }
+            Ok(_) => {
+                lab.check(false, &format!("identifier list must be refused with {want}"));
+            }
+        }
+    }
+    lab.leave();
+}
+
+pub fn run<C: Ciphersuite, L: Lab<C>>(lab: &mut L, p: &Params) {
+    if p.variant == V_PARAMS {
+        return params_case::<C, L>(lab, p);
+    }
+    let ids = identifiers::<C>(p);
+    let (sk, shares, keys) = if p.variant == V_HONEST && p.aux == 1 {
+        // generate_with_dealer: the key itself comes from the random source
+        lab.enter("generate_with_dealer");
+        let r = fc::keys::generate_with_dealer::<C, _>(p.n, p.t, IdentifierList::Default, lab.rng());
+        if !lab.check(r.is_ok(), "generate_with_dealer succeeds") {
+            lab.leave();
+            return;
+        }
+        let (shares, pubs) = r.unwrap();
+        let mut kps = std::collections::BTreeMap::new();
+        for (id, sh) in shares.iter() {
+            let kp = KeyPackage::try_from(sh.clone());
+            if !lab.check(kp.is_ok(), "share verifies") {
+                lab.leave();
+                return;
+            }
+            kps.insert(*id, kp.unwrap());
+        }
+        lab.leave();
+        (None, shares, (kps, pubs))
+    } else {
+        let Some((sk, shares, keys)) = dealer_keys::<C, L>(lab, p) else { return };
+        (Some(sk), shares, keys)
+    };
+    let t = p.t as usize;
+
+    if p.variant == V_HONEST {
+        lab.enter("consistency");
+        lab.check(shares.len() == p.n as usize && keys.1.verifying_shares().len() == p.n as usize, "n shares and n verifying shares");
+        lab.check(shares.keys().copied().collect::<Vec<_>>() == ids, "shares are issued for exactly the requested identifiers");
+        lab.check(keys.1.min_signers() == Some(p.t), "public key package records threshold t");
+        let vk = *keys.1.verifying_key();
+        if let Some(sk) = sk {
+            lab.eq_e(vk.to_element(), g::<C>() * sk, "group key = G * key");
+        }
+        let commitment = shares[&ids[0]].commitment().clone();
+        lab.check(commitment.coefficients().len() == t, "commitment has exactly t entries");
+        // coefficient k (k>=1) is draw number k-1 (dealer) resp. k (generate_with_dealer draws the key first)
+        let off = if sk.is_some() { 0 } else { 1 };
+        let mut coeffs = vec![];
+        if let Some(sk) = sk {
+            coeffs.push(Some(sk));
+        } else {
+            coeffs.push(lab.draw_scalar(0));
+        }
+        for k in 1..t {
+            coeffs.push(lab.draw_scalar(k - 1 + off));
+        }
+        lab.check(lab.rng_requests().len() == t - 1 + off, "exactly t-1 coefficient draws (plus the key for generate_with_dealer)");
+        for (i, id) in ids.iter().enumerate() {
+            let sh = &shares[id];
+            let kp = &keys.0[id];
+            lab.check(sh.commitment() == &commitment, "every share carries the same commitment");
+            lab.check(*kp.min_signers() == p.t && kp.identifier() == id, "key package records t and its identifier");
+            let s_i = kp.signing_share().to_scalar();
+            lab.eq_e(kp.verifying_share().to_element(), g::<C>() * s_i, "verifying share = G * signing share");
+            lab.eq_e(kp.verifying_share().to_element(), keys.1.verifying_shares()[id].to_element(), "verifying share = public key package entry");
+            lab.eq_e(kp.verifying_key().to_element(), vk.to_element(), "one group key everywhere");
+            match sh.verify() {
+                Ok((vs, vk2)) => {
+                    lab.eq_e(vs.to_element(), g::<C>() * s_i, "SecretShare::verify returns G * share");
+                    lab.eq_e(vk2.to_element(), vk.to_element(), "SecretShare::verify returns the group key");
+                }
+                Err(_) => {
+                    lab.check(false, "honest share verifies");
+                }
+            }
+            // share = f(id) for the polynomial (key, draws), Horner-free transcription: sum a_k id^k
+            if coeffs.iter().all(|c| c.is_some()) {
+                let x = id.to_scalar();
+                let mut pw = one::<C>();
+                let mut acc = zero::<C>();
+                for c in coeffs.iter() {
+                    acc = acc + c.unwrap() * pw;
+                    pw = pw * x;
+                }
+                lab.eq_s(s_i, acc, "share = sum_k a_k * id^k for the one polynomial (key, draws)");
+                // degree exactly t-1: the share depends on the top coefficient's own draw
+                if t >= 2 && i < 2 {
+                    lab.depends_on_draw(s_i, t - 2 + off, "share depends on the top coefficient draw (degree exactly t-1)");
+                }
+            }
+        }
+        for (k, c) in commitment.coefficients().iter().enumerate() {
+            if let Some(Some(a)) = coeffs.get(k) {
+                lab.eq_e(c.value(), g::<C>() * *a, "commitment entry k = G * a_k");
+            }
+        }
+        lab.leave();
+        lab.enter("reconstruct");
+        let all: Vec<KeyPackage<C>> = ids.iter().map(|i| keys.0[i].clone()).collect();
+        let skv = sk.or(coeffs[0]);
+        for sub in subsets(p.n as usize, t, t) {
+            let kps: Vec<KeyPackage<C>> = sub.iter().map(|i| all[*i].clone()).collect();
+            match fc::keys::reconstruct(&kps) {
+                Ok(k) => {
+                    if let Some(skv) = skv {
+                        lab.eq_s(k.to_scalar(), skv, "any t shares reconstruct the key");
+                    } else {
+                        lab.eq_e(g::<C>() * k.to_scalar(), vk.to_element(), "any t shares reconstruct the key (checked against the group key)");
+                    }
+                }
+                Err(_) => {
+                    lab.check(false, "reconstruct succeeds with t shares");
+                }
+            }
+        }
+        lab.leave();
+        return;
+    }
+
+    // ---- tampering: the victim's share is altered in one coordinate and must be rejected
+    let vid = ids[p.subset[0]];
+    let sh = shares[&vid].clone();
+    let honest_commitment = sh.commitment().clone();
+    lab.enter("tamper");
+    let (tampered, what): (SecretShare<C>, String) = match p.variant {
+        V_SHARE => {
+            let d = lab.adv_scalar("delta");
+            lab.assume_ne_s(d, zero::<C>(), "delta is non-zero (the share is altered)");
+            (SecretShare::new(vid, SigningShare::new(sh.signing_share().to_scalar() + d), honest_commitment.clone()), "share value altered by delta".into())
+        }
+        V_COEFF => {
+            let d = lab.adv_element("Delta");
+            let mut cs: Vec<CoefficientCommitment<C>> = honest_commitment.coefficients().to_vec();
+            let k = p.aux as usize;
+            cs[k] = CoefficientCommitment::new(cs[k].value() + d);
+            (SecretShare::new(vid, *sh.signing_share(), VerifiableSecretSharingCommitment::new(cs)), format!("commitment entry {k} altered"))
+        }
+        V_IDENT => {
+            let other = ids[p.aux as usize];
+            (SecretShare::new(other, *sh.signing_share(), honest_commitment.clone()), "identifier replaced by another participant's".into())
+        }
+        V_TRUNC => {
+            let mut cs: Vec<CoefficientCommitment<C>> = honest_commitment.coefficients().to_vec();
+            cs.pop();
+            (SecretShare::new(vid, *sh.signing_share(), VerifiableSecretSharingCommitment::new(cs)), "commitment truncated".into())
+        }
+        _ => {
+            let d = lab.adv_element("Extra");
+            let mut cs: Vec<CoefficientCommitment<C>> = honest_commitment.coefficients().to_vec();
+            cs.push(CoefficientCommitment::new(d));
+            (SecretShare::new(vid, *sh.signing_share(), VerifiableSecretSharingCommitment::new(cs)), "commitment extended".into())
+        }
+    };
+    let m = lab.mark();
+    let r = tampered.verify();
+    let wrong_err = matches!(&r, Err(e) if err_name(e) != "InvalidSecretShare");
+    lab.expect_reject(m, r.is_ok(), &format!("SecretShare::verify rejects: {what}"));
+    lab.check(!wrong_err, "rejection is reported as InvalidSecretShare");
+    let m = lab.mark();
+    let r2 = KeyPackage::try_from(tampered);
+    lab.expect_reject(m, r2.is_ok(), &format!("KeyPackage::try_from rejects: {what}"));
+    lab.leave();
 }
